@@ -24,6 +24,7 @@ type Sym struct {
 	Kind   string   // "int" "string" "bool" "list" "" (unknown) — best-effort type tag of the term's value
 	str    string   // cached canonical string
 	RK     string   // for tree accessor calls: Go type name of the receiver (IFooContext / FooContext)
+	Boxed  bool     // a pointer value converted to an interface (MakeInterface): as an interface it never equals nil, even when the pointer is nil
 }
 
 func sConst(v constant.Value) *Sym {
@@ -188,6 +189,8 @@ func (s *Sym) string1() string {
 		return s.Name
 	case "global":
 		return "global(" + s.Name + ")"
+	case "anycall":
+		return "anycall(" + s.Name + ")"
 	case "field":
 		return s.Kids[0].String() + "." + s.Name
 	case "len":
@@ -417,6 +420,15 @@ func (sp *specParser) expr(e ast.Expr) (*Sym, error) {
 				}
 			}
 			return nil, fmt.Errorf("global(\"rel/pkg.name\")")
+		case "anycall":
+			// anycall("pkg.Func"): stands for the one call of that function that occurs in the code term, whatever its arguments
+			if len(x.Args) == 1 {
+				if lit, ok := x.Args[0].(*ast.BasicLit); ok {
+					k, _ := strconv.Unquote(lit.Value)
+					return &Sym{Op: "anycall", Name: k}, nil
+				}
+			}
+			return nil, fmt.Errorf("anycall(\"rel/pkg.Func\")")
 		case "call":
 			if len(x.Args) >= 1 {
 				if lit, ok := x.Args[0].(*ast.BasicLit); ok {
@@ -653,6 +665,9 @@ func (ev *evaluator) eval(s *Sym, hint string) val {
 		if x.Op == "collect" {
 			return val{k: 'i', i: int64(len(ev.eval(x, "list").list))}
 		}
+		if interpretedList(x) {
+			return val{k: 'i', i: int64(len(ev.eval(x, "list").list))}
+		}
 		n := ev.base(&Sym{Op: "len", Kids: []*Sym{x}, Kind: "int"}, "int")
 		if n.i < 0 {
 			n.i = 0
@@ -884,9 +899,113 @@ func (ev *evaluator) eval(s *Sym, hint string) val {
 		return out
 	case "unknown", "acc":
 		return val{k: 'o'}
+	case "call":
+		if v, ok := ev.stringLib(s); ok {
+			return v
+		}
+	case "index":
+		if len(s.Kids) == 2 && interpretedList(s.Kids[0]) {
+			l := ev.eval(s.Kids[0], "list").list
+			i := ev.eval(s.Kids[1], "int").i
+			if i >= 0 && int(i) < len(l) {
+				return l[i]
+			}
+			return val{k: 'o'} // out of range: the code panics (E2's business); both sides see the same opaque value
+		}
 	}
 	// base term: param, field, global, call, lookup, has, index, elem
 	return ev.base(s, hint)
+}
+
+// interpretedList: the term is a list of strings computed by string-library calls the evaluator interprets.
+func interpretedList(x *Sym) bool {
+	if x.Op != "call" {
+		return false
+	}
+	switch x.Name {
+	case "strings.Split", "strings.Fields":
+		return true
+	case "slice":
+		return len(x.Kids) == 3 && interpretedList(x.Kids[0])
+	}
+	return false
+}
+
+// stringLib interprets the pure string-library calls coca uses for name manipulation, so that two differently written
+// computations (Split/Join, LastIndex + slicing, Replace …) are compared by what they compute.
+func (ev *evaluator) stringLib(s *Sym) (val, bool) {
+	str := func(i int) string { return ev.eval(s.Kids[i], "string").s }
+	switch s.Name {
+	case "strings.Split":
+		if len(s.Kids) != 2 {
+			return val{}, false
+		}
+		out := val{k: 'l'}
+		for _, p := range strings.Split(str(0), str(1)) {
+			out.list = append(out.list, val{k: 's', s: p})
+		}
+		return out, true
+	case "strings.Fields":
+		out := val{k: 'l'}
+		for _, p := range strings.Fields(str(0)) {
+			out.list = append(out.list, val{k: 's', s: p})
+		}
+		return out, true
+	case "strings.Join":
+		if len(s.Kids) != 2 || !interpretedList(s.Kids[0]) {
+			return val{}, false
+		}
+		var parts []string
+		for _, v := range ev.eval(s.Kids[0], "list").list {
+			parts = append(parts, v.s)
+		}
+		return val{k: 's', s: strings.Join(parts, str(1))}, true
+	case "strings.Replace":
+		if len(s.Kids) != 4 {
+			return val{}, false
+		}
+		return val{k: 's', s: strings.Replace(str(0), str(1), str(2), int(ev.eval(s.Kids[3], "int").i))}, true
+	case "strings.Count":
+		return val{k: 'i', i: int64(strings.Count(str(0), str(1)))}, true
+	case "strings.Index":
+		return val{k: 'i', i: int64(strings.Index(str(0), str(1)))}, true
+	case "strings.LastIndex":
+		return val{k: 'i', i: int64(strings.LastIndex(str(0), str(1)))}, true
+	case "strings.TrimPrefix":
+		return val{k: 's', s: strings.TrimPrefix(str(0), str(1))}, true
+	case "beforeLast": // everything before the last occurrence of the separator; "" when there is none
+		x, sep := str(0), str(1)
+		if i := strings.LastIndex(x, sep); i >= 0 && sep != "" {
+			return val{k: 's', s: x[:i]}, true
+		}
+		return val{k: 's', s: ""}, true
+	case "afterLast": // everything after the last occurrence of the separator; the whole string when there is none
+		x, sep := str(0), str(1)
+		if i := strings.LastIndex(x, sep); i >= 0 && sep != "" {
+			return val{k: 's', s: x[i+len(sep):]}, true
+		}
+		return val{k: 's', s: x}, true
+	case "slice":
+		if len(s.Kids) != 3 {
+			return val{}, false
+		}
+		lo, hi := ev.eval(s.Kids[1], "int").i, ev.eval(s.Kids[2], "int").i
+		if interpretedList(s.Kids[0]) {
+			l := ev.eval(s.Kids[0], "list").list
+			if lo < 0 || hi > int64(len(l)) || lo > hi {
+				return val{k: 'o'}, true
+			}
+			return val{k: 'l', list: l[lo:hi]}, true
+		}
+		if s.Kids[0].Kind == "string" {
+			x := str(0)
+			if lo < 0 || hi > int64(len(x)) || lo > hi {
+				return val{k: 'o'}, true
+			}
+			return val{k: 's', s: x[lo:hi]}, true
+		}
+	}
+	return val{}, false
 }
 
 func (ev *evaluator) collLen(coll *Sym) int64 {
@@ -991,6 +1110,11 @@ func compareSyms(a, b *Sym, hint string) cmpResult {
 		}
 		if len(s) > 1 {
 			addS(s[:len(s)-1])
+		}
+		if len(s) <= 3 {
+			// separator-like literals: strings with one and with several occurrences, and with a repeated segment
+			addS("a" + s + "b")
+			addS("a" + s + "b" + s + "a" + s + "b")
 		}
 	}
 	// discover base terms by evaluating once with an empty environment, repeatedly (quantifier bodies appear once
@@ -1278,4 +1402,124 @@ func comparePairwise(a, b *Sym, hint string, names []string, cands [][]val, e en
 		}
 	}
 	return res
+}
+
+// stripAsserts removes successful (non comma-ok) type assertions from a term: x.(T) is x whenever it does not panic, and
+// panics are decided by E2, not by the decision tables. Keeps E5 rows insensitive to how the code narrows interface types.
+func stripAsserts(s *Sym) *Sym {
+	var rec func(x *Sym, keep bool) *Sym
+	rec = func(x *Sym, keep bool) *Sym {
+		if x == nil {
+			return nil
+		}
+		if !keep && x.Op == "call" && strings.HasPrefix(x.Name, "assert:") && len(x.Kids) == 1 {
+			return rec(x.Kids[0], false)
+		}
+		if len(x.Kids) == 0 {
+			return x
+		}
+		n := *x
+		n.str = ""
+		n.Kids = make([]*Sym, len(x.Kids))
+		commaOk := x.Op == "call" && (x.Name == "extract0" || x.Name == "extract1")
+		for i, k := range x.Kids {
+			if commaOk && k != nil && k.Op == "call" && strings.HasPrefix(k.Name, "assert:") {
+				kk := *k
+				kk.str = ""
+				kk.Kids = make([]*Sym, len(k.Kids))
+				for j, g := range k.Kids {
+					kk.Kids[j] = rec(g, false)
+				}
+				n.Kids[i] = &kk
+				continue
+			}
+			n.Kids[i] = rec(k, false)
+		}
+		return &n
+	}
+	return rec(s, false)
+}
+
+
+// resolveAnyCalls replaces every anycall(name) of the table term by the unique call of that function in the code term.
+func resolveAnyCalls(want, got *Sym) (*Sym, error) {
+	names := map[string]bool{}
+	want.walk(func(x *Sym) {
+		if x.Op == "anycall" {
+			names[x.Name] = true
+		}
+	})
+	if len(names) == 0 {
+		return want, nil
+	}
+	found := map[string]map[string]*Sym{}
+	got.walk(func(x *Sym) {
+		if x.Op == "call" && names[x.Name] {
+			if found[x.Name] == nil {
+				found[x.Name] = map[string]*Sym{}
+			}
+			found[x.Name][x.String()] = x
+		}
+	})
+	var rec func(x *Sym) *Sym
+	var err error
+	rec = func(x *Sym) *Sym {
+		if x == nil {
+			return nil
+		}
+		if x.Op == "anycall" {
+			if len(found[x.Name]) != 1 {
+				err = fmt.Errorf("the table refers to the result of %s, the code term contains %d distinct calls of it", x.Name, len(found[x.Name]))
+				return x
+			}
+			for _, v := range found[x.Name] {
+				return v
+			}
+		}
+		if len(x.Kids) == 0 {
+			return x
+		}
+		n := *x
+		n.str = ""
+		n.Kids = make([]*Sym, len(x.Kids))
+		for i, k := range x.Kids {
+			n.Kids[i] = rec(k)
+		}
+		return &n
+	}
+	out := rec(want)
+	return out, err
+}
+
+// fieldOf projects a record-valued term (or a collection / conditional of records) onto one field.
+func symFieldOf(x *Sym, path string) *Sym {
+	if path == "" || x == nil {
+		return x
+	}
+	switch x.Op {
+	case "collect", "last":
+		n := *x
+		n.str = ""
+		n.Kids = append([]*Sym{}, x.Kids...)
+		n.Kids[2] = symFieldOf(x.Kids[2], path)
+		return &n
+	case "ite":
+		return sIte(x.Kids[0], symFieldOf(x.Kids[1], path), symFieldOf(x.Kids[2], path))
+	case "struct":
+		head, rest := path, ""
+		if i := strings.Index(path, "."); i >= 0 {
+			head, rest = path[:i], path[i+1:]
+		}
+		for i, f := range x.Fields {
+			if f == head {
+				return symFieldOf(x.Kids[i], rest)
+			}
+		}
+		return sUnknown("record has no field " + head)
+	}
+	out := x
+	for _, f := range strings.Split(path, ".") {
+		out = &Sym{Op: "field", Name: f, Kids: []*Sym{out}}
+	}
+	return out
 }
